@@ -20,9 +20,20 @@ def scripts(prefix, harness, sysfail):
     for script, st, fam, nm in ((1, 1, "AF_INET", "new_newfromfd_stream_v4"), (1, 0, "AF_INET6", "new_newfromfd_dgram_v6"),
                                 (2, 1, "AF_INET", "listener_accept_addresses_v4"), (2, 1, "AF_INET6", "listener_accept_addresses_v6"),
                                 (3, 0, "AF_INET", "receive_from_v4"), (3, 0, "AF_INET6", "receive_from_v6")):
-        qs.append(sq("%s_%s" % (prefix, nm), harness, defs=["SCRIPT=%d" % script, "STREAM=%d" % st, "FAMILY=" + fam, "SYSFAIL=%d" % sysfail, "KMAX=12"],
-                     faults=0, errrec=False, funcs=FUNCS,
-                     bounds={"failing_allocation_index": "0..12, once or from-k-on", "failing_syscalls": sysfail}))
+        variants = [(3, 0, "")]
+        # ... and, for one family per script, in a process whose low descriptors are free, arranged (VS_ROT) so that descriptor 0 goes
+        # to the socket made by p_socket_new / to the foreign descriptor wrapped by p_socket_new_from_fd / to the accepted connection
+        if (script, st, fam) == (1, 1, "AF_INET"):
+            variants += [(0, 5, "_new_gets_fd0"), (0, 0, "_newfromfd_gets_fd0")]
+        if (script, fam) == (2, "AF_INET"):
+            variants += [(0, 0, "_listener_gets_fd0"), (0, 4, "_accept_gets_fd0")]
+        if (script, fam) == (3, "AF_INET"):
+            variants += [(0, 0, "_new_gets_fd0")]
+        for base, rot, vn in variants:
+            qs.append(sq("%s_%s%s" % (prefix, nm, vn), harness,
+                         defs=["SCRIPT=%d" % script, "STREAM=%d" % st, "FAMILY=" + fam, "SYSFAIL=%d" % sysfail, "KMAX=12", "VS_FD0=%d" % base, "VS_ROT=%d" % rot],
+                         faults=0, errrec=False, funcs=FUNCS,
+                         bounds={"failing_allocation_index": "0..12, once or from-k-on", "failing_syscalls": sysfail, "first_descriptor": base, "slot_rotation": rot}))
     return qs
 
 
